@@ -303,6 +303,19 @@ impl<Sink: TokenSink> XmlTokenizer<Sink> {
     // NB: this doesn't do input stream preprocessing or set the current input
     // character.
     fn eat(&self, input: &BufferQueue, pat: &str) -> Option<bool> {
+        if self.ignore_lf.get() {
+            // A CR was just consumed: skip the LF of a CRLF pair before looking ahead, and only
+            // forget the pending CR once the character that follows it has been seen.
+            match self.peek(input) {
+                Some('\n') => {
+                    self.discard_raw_char(input);
+                    self.ignore_lf.set(false);
+                },
+                Some(_) => self.ignore_lf.set(false),
+                None => (),
+            }
+        }
+
         input.push_front(replace(&mut *self.temp_buf.borrow_mut(), StrTendril::new()));
         match input.eat(pat, u8::eq_ignore_ascii_case) {
             None if self.at_eof.get() => Some(false),
